@@ -109,28 +109,9 @@ def gen_exhaustive(job, variant, depth, alphabet):
             yield list(word)
 
 
-def translate(ctx: Ctx) -> bool:
-    """the bookkeeping methods of SimulationHistory / OperationLog, regenerated from the tree under test (fail closed)"""
-    import tr_history
-    try:
-        files, meta = tr_history.gen(str(REPO))
-    except Exception as e:
-        ctx.prepare_coq()
-        for f in (ctx.coq / "gen").glob("HistorySrc.*"):
-            f.unlink()
-        ctx.broken.append("translator tools/tr_history.py rejects %s: %s" % (tr_history.SRC, str(e)[:300]))
-        ctx.obligations += 1
-        ctx.cov["translators"] = {"tr_history": {"files": [tr_history.SRC], "rejected": str(e)[:300]}}
-        return False
-    for n, t in files.items():
-        ctx.write_gen(n, t)
-    ctx.cov["translators"] = {"tr_history": {"files": [tr_history.SRC], "rejected": None, "functions": meta["functions"]}}
-    return True
-
-
 def run(ctx: Ctx) -> int:
-    if translate(ctx):
-        ec.build_and_check_props(ctx, ["theories/Props/C03.v", "theories/Props/C03_history.v"])
+    if ec.translate_engine_sources(ctx):
+        ec.build_and_check_props(ctx, ["theories/Props/C03.v", "theories/Props/C03_history.v", "theories/Props/C01_engine_src.v"])
     else:
         ec.build_and_check_props(ctx, ["theories/Props/C03.v"])
     budget = ec.Budget(900 if ctx.thorough else 110)
